@@ -281,6 +281,65 @@ def _loop_shape(fi, loop):
     return None
 
 
+def _expr_helper_value(mod, call, caller_locals):
+    """`call` calls a plain module-level function of `mod` whose body is
+    (docstring +) `return <pure expression of its parameters>`: that expression
+    with the parameters replaced by the (pure) arguments - what the call
+    evaluates to.  None when the callee is anything else (several statements,
+    decorators, star-arguments, defaults left unbound, free names the caller
+    shadows, comprehension variables that would capture an argument)."""
+    from ..match import _NEUTRAL
+    from ..normal import is_pure
+    if not (isinstance(call, ast.Call) and isinstance(call.func, ast.Name)):
+        return None
+    h = mod.functions.get(call.func.id)
+    if h is None or not isinstance(h, ast.FunctionDef) or h.decorator_list or h.args.vararg or h.args.kwarg \
+            or h.args.kwonlyargs or getattr(h.args, 'posonlyargs', None):
+        return None
+    body = [s for s in h.body if not isinstance(s, ast.Pass) and
+            not (isinstance(s, ast.Expr) and isinstance(s.value, ast.Constant))]
+    if len(body) != 1 or not isinstance(body[0], ast.Return) or body[0].value is None:
+        return None
+    val = body[0].value
+    ps = params(h)
+    b = _bind(call, ps)
+    if b is None or set(b) != set(ps) or not is_pure(val) or not all(is_pure(a) for a in b.values()):
+        return None
+    bound = {t.id for x in ast.walk(val) if isinstance(x, ast.comprehension)
+             for t in ast.walk(x.target) if isinstance(t, ast.Name)}
+    if bound & set(ps):
+        return None
+    arg_names = {n for a in b.values() for n in names_loaded(a)}
+    if bound & arg_names:
+        return None
+    for x in ast.walk(val):
+        if isinstance(x, ast.Name) and x.id not in ps and x.id not in bound:
+            if x.id in caller_locals or not (x.id in _NEUTRAL or x.id in mod.functions or x.id in ('hasattr', 'isinstance')):
+                return None
+    return _rebuild(val, lambda e: _rebuild(b[e.id], lambda y: ast.Name(id=y.id, ctx=y.ctx))
+                    if e.id in b and isinstance(e.ctx, ast.Load) else ast.Name(id=e.id, ctx=e.ctx))
+
+
+def through_expr_helpers(mod, fn, expr, depth=3):
+    """`expr` with every call of a one-expression helper of the same module
+    (see _expr_helper_value) replaced by the value it returns: a predicate or
+    a small formula moved into a private function is seen through."""
+    if expr is None or depth <= 0:
+        return expr
+    local = set(params(fn)) | {t for s in walk_local(fn) if isinstance(s, (ast.Assign, ast.AugAssign, ast.AnnAssign, ast.For))
+                               for tg in (s.targets if isinstance(s, ast.Assign) else [s.target]) for t in target_names(tg)}
+
+    class T(ast.NodeTransformer):
+        def visit_Call(self, node):
+            self.generic_visit(node)
+            v = _expr_helper_value(mod, node, local)
+            if v is None:
+                return node
+            return through_expr_helpers(mod, fn, v, depth - 1)
+    import copy
+    return T().visit(copy.deepcopy(expr))
+
+
 def _returned_name(fi, fn, allow=()):
     """Name of the local object every return statement returns (also through
     np.array(x) / np.asarray(x) / list(x)); None if not uniform."""
@@ -689,6 +748,8 @@ def d2_partition(ck):
     if sq is None or rg is None:
         ck.missing(rule, 'both branches must return a ClusterResult')
         return
+    # a predicate moved into a one-expression helper of the module is seen through
+    t = canon(through_expr_helpers(mod, fn, t))
     while isinstance(t, ast.UnaryOp) and isinstance(t.op, ast.Not):
         t = t.operand
         sq, rg = rg, sq
@@ -1122,6 +1183,137 @@ def _d4_index_dtype(ck, rule, mod, fn, fi, F, out, st, A, D):
                'are expected (not usable as indices)' % u(v))
 
 
+def _label_set_forms(A):
+    """Accepted spellings of "the distinct labels that occur in A"."""
+    return {C(f % {'A': A}) for f in (
+        'np.unique(%(A)s)', 'sorted(set(%(A)s))', 'np.unique(np.asarray(%(A)s))', 'sorted(np.unique(%(A)s))',
+        'set(%(A)s)', 'list(set(%(A)s))', 'np.unique(%(A)s.ravel())', 'np.unique(np.ravel(%(A)s))',
+        'np.unique(%(A)s.flatten())', 'list(np.unique(%(A)s))', 'np.unique(%(A)s).tolist()', 'set(%(A)s.tolist())',
+        'sorted(set(%(A)s.tolist()))', 'frozenset(%(A)s)')}
+
+
+_EXTREME_CALLS = {'len', 'int', 'max', 'min', 'np.max', 'np.min', 'np.amax', 'np.amin', 'np.nanmax', 'np.nanmin', 'np.size',
+                  'np.shape', 'np.asarray', 'np.alen', 'np.ptp', 'abs'}
+_EXTREME_METHODS = {'max', 'min', 'ptp', '__len__'}
+
+
+def _extremes_only(e, operands):
+    """`e` is built from the operands by length / shape / extreme-value
+    reductions, integer constants and arithmetic only.  Such a value is the
+    same for any two label arrays of equal length, maximum and minimum -
+    which can hold different numbers of distinct labels - so it cannot be the
+    number of labels present."""
+    seen = False
+    for x in ast.walk(e):
+        if isinstance(x, ast.Name):
+            if x.id in operands:
+                seen = True
+            elif x.id not in ('np', 'numpy', 'len', 'int', 'max', 'min', 'abs'):
+                return False
+        elif isinstance(x, ast.Call):
+            cn = call_name(x) or ''
+            if x.keywords and any(k.arg not in ('axis',) for k in x.keywords):
+                return False
+            if cn.replace('numpy.', 'np.') in _EXTREME_CALLS:
+                continue
+            if isinstance(x.func, ast.Attribute) and x.func.attr in _EXTREME_METHODS and not x.args:
+                continue
+            return False
+        elif isinstance(x, ast.Attribute):
+            if x.attr not in ({'shape', 'size'} | _EXTREME_METHODS) and not (isinstance(x.value, ast.Name) and x.value.id in ('np', 'numpy')):
+                return False
+        elif isinstance(x, ast.Constant):
+            if not isinstance(x.value, int) or isinstance(x.value, bool):
+                return False
+        elif isinstance(x, ast.Subscript):
+            # only <...>.shape[<const>]
+            if not (isinstance(x.value, ast.Attribute) and x.value.attr == 'shape') and \
+                    not (isinstance(x.value, ast.Call) and (call_name(x.value) or '') in ('np.shape', 'numpy.shape')):
+                return False
+        elif not isinstance(x, (ast.BinOp, ast.UnaryOp, ast.operator, ast.unaryop, ast.expr_context, ast.Tuple, ast.keyword)):
+            return False
+    return seen
+
+
+def _d4_result_size(ck, rule, mod, fn, fi, F, out, A, D):
+    """One entry per label PRESENT: the array the function returns is
+    allocated once, with as many entries as there are distinct labels in the
+    assignments (`len(np.unique(assignments))` & equivalent) - the callers
+    (predict, ClusterResult.partition, the apps) line the result up with the
+    sorted distinct labels.  A size that is a function of the length / the
+    extreme values of the inputs only (`assignments.max() + 1`,
+    `len(assignments)`) is a different number whenever a label below the
+    maximum does not occur (predict on new data that visits only some of the
+    fitted clusters): the surplus entries keep the fill value - frame 0, which
+    is not a member of those labels."""
+    rets = returns_of(fn)
+    sites = set()
+    for r in rets:
+        ds = fi.rd.defs_at(r, out)
+        if len(ds) != 1:
+            ck.missing(rule, 'single allocation of the returned index array `%s` reaching %s' % (out, mod.loc(r)))
+            return
+        sites |= set(ds)
+    if len(sites) != 1:
+        ck.missing(rule, 'single allocation of the returned index array `%s`' % out)
+        return
+    site = next(iter(sites))
+    v = fi.def_value(site, out) if isinstance(site, (ast.Assign, ast.AnnAssign)) else None
+    if v is None:
+        ck.missing(rule, 'allocation of the returned index array `%s` not understood' % out)
+        return
+    if (isinstance(v, ast.List) and not v.elts) or (isinstance(v, ast.Call) and call_name(v) == 'list' and not v.args and not v.keywords):
+        return          # a python list that grows by one append per label: decided by the emit / labels obligations
+    cn = (call_name(v) or '').replace('numpy.', 'np.') if isinstance(v, ast.Call) else None
+    shape = None
+    if cn in _ALLOC:
+        shape = v.args[0] if v.args else next((k.value for k in v.keywords if k.arg == 'shape'), None)
+    elif cn in _LIKE:
+        proto = v.args[0] if v.args else next((k.value for k in v.keywords if k.arg in ('a', 'prototype')), None)
+        if proto is not None and not any(k.arg == 'shape' for k in v.keywords):
+            shape = ast.Call(func=ast.Name(id='len', ctx=ast.Load()), args=[proto], keywords=[])
+    if shape is None:
+        ck.missing(rule, 'allocation of the returned index array `%s` not recognised: %s' % (out, u(site)[:100]))
+        return
+    N = canon(xp(fi, shape))
+    while True:
+        if isinstance(N, ast.Tuple) and len(N.elts) == 1:
+            N = N.elts[0]
+            continue
+        m = match('int(_X)', N)
+        if m is not None:
+            N = m['_X']
+            continue
+        break
+    accepted = _label_set_forms(A)
+    # the collection a loop of the function iterates also counts: whether THAT is the set of labels present is
+    # the business of the .labels obligation
+    for l in walk_local(fn):
+        if isinstance(l, ast.For):
+            sh = _loop_shape(fi, l)
+            if sh is not None and A in names_loaded(ast.parse(sh[0], mode='eval')):
+                accepted.add(sh[0])
+    U = None
+    for pat in ('len(_U)', '_U.shape[0]', '_U.size', '_U.shape', 'np.size(_U)', '_U.__len__()', 'np.shape(_U)[0]', 'np.shape(_U)'):
+        m = match(pat, N)
+        if m is not None:
+            U = m['_U']
+            break
+    construct = 'size of the returned index array: %s' % ct(N)
+    if U is not None and ct(U) in accepted:
+        ck.ok(rule, mod, site, construct, 'one entry per label present')
+        return
+    if _extremes_only(N, {A, D}):
+        ck.bad(rule, mod, site, F, 'allocation of the frame-index array returned by %s: one entry per label present' % F,
+               'the result must hold one frame index per label that OCCURS in `%s` (len(np.unique(%s))): `%s` has `%s` entries, a '
+               'function of the length / extreme values of the inputs only, which differs from the number of labels present whenever '
+               'some label below the maximum does not occur (prediction / reassignment of data that visits only some clusters, labels not '
+               'starting at 0); the surplus entries keep the fill value (frame 0, not a member of those labels) and the result no longer '
+               'lines up with np.unique(%s)' % (A, A, u(v)[:100], ct(N), A))
+        return
+    ck.missing(rule, 'size of the returned index array `%s` not recognised as the number of labels present: %s' % (out, ct(N)[:120]))
+
+
 def d4_find_centers(ck):
     rule = 'C10.D4.find-centers'
     F = 'find_cluster_centers'
@@ -1131,6 +1323,8 @@ def d4_find_centers(ck):
     fi = finfo(mod, fn)
     A, D = params(fn)[:2]
     out = _returned_name(fi, fn)
+    if out is not None:
+        _d4_result_size(ck, rule + '.one-per-label', mod, fn, fi, F, out, A, D)
     fors = [l for l in walk_local(fn) if isinstance(l, ast.For)]
     if not fors:
         ck.missing(rule, 'per-label loop')
@@ -1505,6 +1699,178 @@ def d7_batches(ck):
            'must accept the next trajectory unconditionally' % (out, u(branch.test)))
 
 
+# D7 (order): batch_reassign concatenates the per-batch results in batch order
+# (`assignments.extend(partition_list(...))` once per batch) and returns them as
+# "row k = trajectory k".  That is right iff reading the batches one after the
+# other gives 0, 1, 2, ...: compute_batches visits the trajectories in order, so
+# each trajectory index must go to the END of that reading - into the LAST
+# batch (`<out>[-1].append(i)`) or into a new batch appended after it
+# (`<out>.append([i])`).  An index appended to a batch reached by iterating
+# over the batch list (first fit, best fit) or to a fixed earlier batch lands
+# in front of indices already emitted: the rows of the reassignment are
+# permuted although every single frame is still assigned correctly.
+
+def _elem_source(target, it, name):
+    """The sub-expression of the iterable `it` whose elements the loop
+    variable `name` takes (through zip / enumerate positions)."""
+    if isinstance(target, ast.Name):
+        return it if target.id == name else None
+    if isinstance(target, (ast.Tuple, ast.List)) and isinstance(it, ast.Call) and not it.keywords:
+        cn = call_name(it)
+        if cn == 'zip' and len(it.args) == len(target.elts):
+            for t, a in zip(target.elts, it.args):
+                if name in target_names(t):
+                    return _elem_source(t, a, name)
+        if cn == 'enumerate' and len(it.args) == 1 and len(target.elts) == 2 and name in target_names(target.elts[1]):
+            return _elem_source(target.elts[1], it.args[0], name)
+    return None
+
+
+def _whole_of(e):
+    """Strip wrappers that iterate over ALL elements of their argument."""
+    while True:
+        if isinstance(e, ast.Call) and call_name(e) in ('reversed', 'list', 'iter', 'tuple') and len(e.args) == 1 and not e.keywords:
+            e = e.args[0]
+        elif isinstance(e, ast.Subscript) and isinstance(e.slice, ast.Slice) and e.slice.lower is None and e.slice.upper is None:
+            e = e.value
+        else:
+            return e
+
+
+def _consumer_concatenates_in_batch_order(mod):
+    """batch_reassign loops over what compute_batches returned and extends /
+    appends to its results once per batch (no placement by trajectory index)."""
+    cons = mod.functions.get('batch_reassign')
+    if cons is None:
+        return False
+    cfi = finfo(mod, cons)
+    for l in walk_local(cons):
+        if not isinstance(l, ast.For):
+            continue
+        sh = _loop_shape(cfi, l)
+        if sh is None:
+            continue
+        src = xp(cfi, l.iter.args[0] if isinstance(l.iter, ast.Call) and call_name(l.iter) == 'enumerate' and l.iter.args else l.iter,
+                 allow=('compute_batches',))
+        if not _is_call_to(src, 'compute_batches'):
+            continue
+        grows = [c for c in calls_in(l) if isinstance(c.func, ast.Attribute) and c.func.attr in ('extend', 'append')
+                 and isinstance(c.func.value, ast.Name)]
+        places = [s for s in walk_local(l) if isinstance(s, ast.Assign) and any(isinstance(t, ast.Subscript) for t in s.targets)]
+        if grows and not places:
+            return True
+    return False
+
+
+def d7_batch_order(ck):
+    rule = 'C10.D7.batches.in-order'
+    F = 'compute_batches'
+    mod = ck.repo.mod(CU)
+    fn = mod.functions.get(F)
+    if fn is None:
+        ck.missing(rule, 'function %s in %s' % (F, CU))
+        return
+    fi = finfo(mod, fn)
+    ps = params(fn)
+    if len(ps) < 2:
+        ck.missing(rule, 'parameters (lengths, batch_size) of %s' % F)
+        return
+    lens = ps[0]
+    out = _returned_name(fi, fn)
+    if out is None:
+        ck.missing(rule, 'the list of batches %s returns' % F)
+        return
+    loops = [l for l in walk_local(fn) if isinstance(l, ast.For) and _loop_shape(fi, l) is not None and _loop_shape(fi, l)[0] == lens]
+    if len(loops) != 1:
+        ck.missing(rule, 'the loop over `%s` in %s (found %d)' % (lens, F, len(loops)))
+        return
+    loop = loops[0]
+    idx = _loop_shape(fi, loop)[1]
+    if idx is None:
+        ck.missing(rule, 'the position of the trajectory in `%s` (enumerate / range index of the loop)' % lens)
+        return
+    if _updates(loop, idx):
+        ck.missing(rule, 'the trajectory index `%s` is rebound inside the loop' % idx)
+        return
+    last = {C('%s[-1]' % out), C('%s[len(%s) - 1]' % (out, out))}
+    # other structural changes of the batch list (insert / reverse / sort / item stores) are not analysed
+    for c in calls_in(fn):
+        if isinstance(c.func, ast.Attribute) and ct(c.func.value) == out and c.func.attr != 'append':
+            ck.missing(rule, 'the batch list `%s` is changed by .%s(...) at %s' % (out, c.func.attr, mod.loc(c)))
+            return
+    if subscript_stores(fn, out):
+        ck.missing(rule, 'the batch list `%s` is changed by an item store' % out)
+        return
+    opens = [c for c in calls_in(loop) if isinstance(c.func, ast.Attribute) and c.func.attr == 'append' and ct(c.func.value) == out]
+    n = 0
+    verdicts = []
+    for c in calls_in(loop):
+        if not (isinstance(c.func, ast.Attribute) and c.func.attr in ('append', 'extend', 'insert') and c.args and not c.keywords):
+            continue
+        X = xp(fi, c.args[-1])
+        if idx not in names_loaded(X):
+            continue
+        R = c.func.value
+        s = fi.stmt(c)
+        single = isinstance(X, ast.List) and len(X.elts) == 1 and ct(X.elts[0]) == idx
+        if c.func.attr == 'append' and ct(R) == out:
+            n += 1
+            if single:
+                ck.ok(rule, mod, s, u(s), 'a new batch is opened after the last one with the current trajectory')
+            else:
+                verdicts.append(('far', s, 'value appended to the batch list is not `[%s]`' % idx))
+            continue
+        elem = (c.func.attr == 'append' and ct(X) == idx) or (c.func.attr == 'extend' and single)
+        if not elem:
+            verdicts.append(('far', s, 'emit of the trajectory index not recognised'))
+            continue
+        n += 1
+        if xt(fi, R) in last:
+            ck.ok(rule, mod, s, u(s), 'the trajectory index goes to the end of the last batch')
+            continue
+        why = None
+        if isinstance(R, ast.Subscript) and ct(R.value) == out and isinstance(const_value(R.slice, default=None), int) \
+                and const_value(R.slice) != -1:
+            why = '`%s` is a fixed batch, not the last one' % ct(R)
+            inner = None
+        elif isinstance(R, ast.Name):
+            ds = fi.defs_of_use(R)
+            inner = next(iter(ds)) if len(ds) == 1 else None
+            if isinstance(inner, ast.For) and _inside(inner, loop) and inner is not loop:
+                src = _elem_source(inner.target, inner.iter, R.id)
+                if src is not None and xt(fi, _whole_of(src)) == out:
+                    why = '`%s` ranges over ALL batches of `%s` (for %s in %s)' % (R.id, out, u(inner.target), u(inner.iter))
+        if why is None:
+            verdicts.append(('far', s, 'receiver `%s` of the trajectory index is neither `%s[-1]` nor an element of `%s`' % (ct(R), out, out)))
+            continue
+        # a condition that speaks about the position of the batch could single out the last one: not decided
+        pc = path_condition(fi, s, inner if inner is not None else loop, fresh=False)
+        pos_names = {out}
+        if inner is not None and isinstance(inner.iter, ast.Call) and call_name(inner.iter) in ('enumerate', 'range'):
+            pos_names |= set(target_names(inner.target)) - {R.id}
+        mentioned = {nm for t, _, _ in (pc or []) for nm in names_loaded(xp(fi, t, strict=False))}
+        if pc is None or (mentioned & pos_names) or not opens:
+            verdicts.append(('far', s, why + ', under a condition the rule cannot decide'))
+        else:
+            verdicts.append(('bad', s, why))
+    if n == 0 and not verdicts:
+        ck.missing(rule, 'no append of the trajectory index `%s` to a batch found in %s' % (idx, F))
+        return
+    bad = [v for v in verdicts if v[0] == 'bad']
+    if bad and not _consumer_concatenates_in_batch_order(mod):
+        ck.missing(rule, 'batch_reassign does not visibly concatenate the per-batch results in batch order; %s' % bad[0][2])
+        return
+    for kind, s, why in verdicts:
+        if kind == 'bad':
+            ck.bad(rule, mod, s, F, 'trajectory index appended to a batch other than the last one: %s' % u(s),
+                   'batches must be contiguous runs of trajectory indices in input order (the index goes to `%s[-1]` or opens a new batch '
+                   'at the end): %s, so a later (short) trajectory can be packed into an earlier batch; batch_reassign concatenates the '
+                   'per-batch results in batch order, so the rows of the returned assignments/distances are then permuted relative to '
+                   'the input trajectories (row k is no longer trajectory k)' % (out, why))
+        else:
+            ck.missing(rule, '%s at %s: %s' % (why, mod.loc(s), u(s)[:100]))
+
+
 def _loop_variable_rebinds(ck):
     """Role-based form of the documented suppression `index -= traj_len` of
     partition_indices (sa/patterns.py SUPPRESS, keyed by source text): if the
@@ -1578,6 +1944,7 @@ def check(ck):
     d4_find_centers(ck)
     d5_partition_list(ck)
     d7_batches(ck)
+    d7_batch_order(ck)
     check_no_arg_mutation(ck, 'C10.D6.inputs-unmodified', [
         (CU, 'assign_to_nearest_center'), (CU, 'find_cluster_centers'),
         (CU, 'ClusterResult.partition'), (RA, 'partition_indices'),
